@@ -232,6 +232,42 @@ pub fn cmp_sep_grammar_int<const F: u128>(s: &[u8]) -> Result<(), &'static str> 
     Ok(())
 }
 
+/// Slice contract of parse_number (relied upon by the slow path, which re-reads the digits): for an accepted complete input
+/// without sign, `Number.integer` is exactly the byte range before the decimal point / exponent character / end, and
+/// `Number.fraction` is `Some(exactly the byte range between the decimal point and the exponent character / end)` iff there
+/// is a decimal point - separators included, whatever component they belong to.
+pub fn cmp_number_slices<const F: u128>(s: &[u8]) -> Result<(), &'static str> {
+    if s.is_empty() { return Ok(()); }
+    let opts = Options::new();
+    let num = match parse_complete_number::<F>(s.bytes::<F>(), false, &opts) { Ok(n) => n, Err(_) => return Ok(()) };
+    let mut i = 0;
+    while i < s.len() && s[i] != b'.' && s[i] != b'e' { i += 1; }
+    if num.integer.len() != i || num.integer.as_ptr() != s.as_ptr() { return Err("Number.integer is the byte range of the integer component"); }
+    if i < s.len() && s[i] == b'.' {
+        let mut j = i + 1;
+        while j < s.len() && s[j] != b'e' { j += 1; }
+        match num.fraction {
+            Some(f) => { if f.len() != j - i - 1 || f.as_ptr() != s[i + 1..].as_ptr() { return Err("Number.fraction is the byte range of the fraction component (separators included)"); } },
+            None => return Err("Number.fraction is Some when the input has a decimal point"),
+        }
+    } else if num.fraction.is_some() { return Err("Number.fraction is None when the input has no decimal point"); }
+    Ok(())
+}
+
+macro_rules! slices_body {
+    ($F:expr, $L:expr) => {{
+        const F: u128 = $F;
+        let bytes: [u8; $L] = any();
+        let len: usize = any();
+        assume(len <= $L);
+        let mut i = 0;
+        while i < $L { let c = bytes[i]; assume(c == b'0' || c == b'7' || c == b'_' || c == b'.' || c == b'e'); i += 1; }
+        let r = cmp_number_slices::<F>(&bytes[..len]);
+        vcheck!(r.is_ok(), "parse_number returns the byte ranges of the integer and fraction components");
+        cover(len == $L);
+    }};
+}
+
 macro_rules! grammar_int_body {
     ($F:expr, $L:expr) => {{
         const F: u128 = $F;
@@ -499,6 +535,24 @@ crate::harnesses! {
     /// @timeout 1200
     #[cfg_attr(kani, kani::unwind(8))]
     fn sep_partial_complete_int_it() { pc_int_body!(F_IT, 5) }
+
+    /// byte ranges returned by parse_number, separators enabled in the fraction only: strings len <= 5 over {0 7 _ . e}.
+    /// @prop C13 C10
+    /// @feat format radix_format
+    /// @bound format F_FRAC_I; input length <= 5 over {0 7 _ . e}
+    /// @fn lexical-parse-float::parse::parse_number (integer_digits / fraction_digits slices)
+    /// @timeout 1200
+    #[cfg_attr(kani, kani::unwind(8))]
+    fn sep_number_slices_frac_only() { slices_body!(F_FRAC_I, 5) }
+
+    /// byte ranges returned by parse_number, separators enabled in the integer only.
+    /// @prop C13 C10
+    /// @feat format radix_format
+    /// @bound format F_INT_I; input length <= 5 over {0 7 _ . e}
+    /// @fn lexical-parse-float::parse::parse_number (integer_digits / fraction_digits slices)
+    /// @timeout 1200
+    #[cfg_attr(kani, kani::unwind(8))]
+    fn sep_number_slices_int_only() { slices_body!(F_INT_I, 5) }
 
     /// separator-position grammar on the INTEGER parser, separators enabled for the fraction only (none valid in an integer): strings len <= 5 over {0 7 _}.
     /// @prop C13
